@@ -77,6 +77,16 @@ def cases(rng, tier, feats, drv_ok):
         if fx and fx[0].startswith('ok '):
             out.append({'line': f"verify recursive 32 {fx[0][3:]}", 'kind': 'model:fixture', 'expect': fw.hash_of(feats)[0] == 'k' and fw.stone_of(feats) == 'stone5' and True,
                         'pr': 'fixture', 'L': 'recursive'})
+            # PURITY under history: the same StarkProof object verified, overwritten with another proof, verified again (a memo inside the
+            # object must not survive): honest -> tampered must reject, tampered -> honest must give the honest verdict
+            ok = fw.hash_of(feats)[0] == 'k' and fw.stone_of(feats) == 'stone5'
+            hon = fx[0][3:]; toks = hon.split(' ')
+            # the main page is token CFG(13) + 8: change the value of its last cell (a false statement)
+            mp = toks[13 + 8].split(';'); last = mp[-1].split(':'); last[1] = format((int(last[1], 16) + 1) % fw.P, 'x'); mp[-1] = ':'.join(last)
+            tam = ' '.join(toks[:13 + 8] + [';'.join(mp)] + toks[13 + 9:])
+            if ok: out.append({'line': f'verify_seq recursive 32 {hon} {tam}', 'kind': 'history:honest-then-tampered', 'expect': False, 'pr': 'fixture', 'L': 'recursive'})
+            if ok: out.append({'line': f'verify_seq recursive 32 {tam} {hon}', 'kind': 'history:tampered-then-honest', 'expect': ok, 'pr': 'fixture', 'L': 'recursive'})
+            if ok: out.append({'line': f'verify_seq recursive 32 {hon} {hon}', 'kind': 'history:honest-twice', 'expect': ok, 'pr': 'fixture', 'L': 'recursive'})
     return out
 
 
